@@ -569,3 +569,23 @@ Proof.
   cbn [step]. destruct (grant s id) as [s1 r] eqn:Eg. destruct r as [l|]; [|intros _ H; exfalso; apply H; reflexivity].
   cbn [negb]. destruct (_ && _); intros H _; inversion H; subst; cbn. split; reflexivity.
 Qed.
+
+(* a replica that is behind the primary - by any number of transactions - when it asks for the lock ends up holding the
+   lock the primary granted, at the primary's position *)
+Theorem grant_wait_holds s id : Inv s -> phalt s = None -> id <> 0 ->
+  snd (grant_wait s id false) = c_ok /\
+  rlock (fst (grant_wait s id false)) = Some (id, pos_of (plog s)) /\
+  phalt (fst (grant_wait s id false)) = Some (id, pos_of (plog s)) /\
+  rlog (fst (grant_wait s id false)) = plog s /\ plog (fst (grant_wait s id false)) = plog s.
+Proof.
+  intros HI Hp Hid. unfold grant_wait, grant. apply N.eqb_neq in Hid. rewrite Hid, Hp.
+  set (l := (id, pos_of (plog s))).
+  set (s1 := {| plog := plog s; phalt := Some l; rlock := rlock s; rlog := rlog s; olog := olog s; ohalt := ohalt s |}).
+  assert (Inv s1) as HI1 by (destruct HI as [A B C]; constructor; assumption).
+  destruct (settle_plog (S (length (plog s1))) s1) as [Ep [Eh _]].
+  destruct (settle_converges (S (length (plog s1))) s1 HI1) as [Er _]; [unfold lag; lia|unfold lag; intros; lia|].
+  set (s2 := settle (S (length (plog s1))) s1) in *.
+  cbn [snd fst l]. rewrite Er. change (plog s1) with (plog s). rewrite !N.eqb_refl. cbn [andb fst snd with_rlock rlock phalt rlog plog].
+  rewrite Eh, Er, Ep. repeat split; reflexivity.
+Qed.
+
